@@ -235,25 +235,26 @@ theorem inlineRequire_spec (G : Graph P) (R : P → Prop) (hR : ∀ p q, R p →
             · exact hF x hx
             · have : x = p := by simpa using hx
               subst this; exact hnone
-          have hv := visit_spec G R (stack ++ [p]) (inlineRequire G n (stack ++ [p])) false sites
-            (fun s hs q hq _ => ih (stack ++ [p]) q (hR p q hRp ⟨sites, ret, hget, s, hs, hq⟩)) st hI hF'
+          have hv := visit_spec G R (stack ++ [p]) (inlineRequire G n (stack ++ [p])) true sites
+            (fun s hs q hq ha => ih (stack ++ [p]) q
+              (hR p q hRp ⟨sites, ret, hget, s, hs, by simpa [Active] using ha, hq⟩)) st hI hF'
           have hfr := fresh_snoc hv.2.2.1
           split
           · exact ⟨hv.1, hv.2.1, hfr.1, fun j hj => by simp at hj⟩
           · exact ⟨hv.1, hv.2.1, hfr.1, fun j hj => by simp at hj⟩
           · have hdone : ∀ q, Edge G p q →
-                Done q (visit (inlineRequire G n (stack ++ [p])) false sites st).2 := by
-              intro q ⟨sites', ret', hg, s, hs, hq⟩
+                Done q (visit (inlineRequire G n (stack ++ [p])) true sites st).2 := by
+              intro q ⟨sites', ret', hg, s, hs, hsh, hq⟩
               rw [hget] at hg; cases hg
-              exact hv.2.2.2 s hs q hq (by simp [Active])
+              exact hv.2.2.2 s hs q hq (by simp [Active, hsh])
             refine ⟨hv.1.addDef p _ hfr.2 hRp hdone, ?_, ?_, ?_⟩
             · refine ⟨?_, fun q h => hv.2.1.2 q h⟩
               intro i x hx
               have hx' := hv.2.1.1 i x hx
-              have hi : i < (visit (inlineRequire G n (stack ++ [p])) false sites st).2.paths.length := by
-                by_cases hi : i < (visit (inlineRequire G n (stack ++ [p])) false sites st).2.paths.length
+              have hi : i < (visit (inlineRequire G n (stack ++ [p])) true sites st).2.paths.length := by
+                by_cases hi : i < (visit (inlineRequire G n (stack ++ [p])) true sites st).2.paths.length
                 · exact hi
-                · have : (visit (inlineRequire G n (stack ++ [p])) false sites st).2.paths[i]? = none := by
+                · have : (visit (inlineRequire G n (stack ++ [p])) true sites st).2.paths[i]? = none := by
                     simp; omega
                   rw [this] at hx'; cases hx'
               simp only [St.paths, List.map_append] at hx' ⊢
